@@ -7,6 +7,7 @@ package vx
 
 func Byte(name string) byte                 { return byte(nextInt(name, 8)) }
 func Int64(name string) int64               { return int64(nextInt(name, 64)) }
+func Timestamp(name string) int64           { return int64(nextInt(name, 64)) }
 func Int(name string) int                   { return int(int64(nextInt(name, 64))) }
 func Bool(name string) bool                 { return nextBool(name) }
 func Bytes(name string, n int) []byte       { return nextBytes(name, n) }
@@ -116,3 +117,7 @@ func MemOpsOf(k int) string       { return "" }
 func MemPeek(b []byte) []byte     { return nil }
 func MemPeekOf(k int) []byte      { return nil }
 func MemStateOf(k int) int        { return 0 }
+
+// CalledFrom reports how many times repo function `callee` was called directly from repo function `caller`
+// on this path (short function names). Symbolic runs only; natively 0.
+func CalledFrom(callee, caller string) int { return 0 }
